@@ -480,7 +480,14 @@ func check(run *vh.Run, label string, w *vh.World, ob *vh.ObservedBlock, plans [
 						run.Violation("contract-deleted-without-selfdestruct", label, wit(a, nil))
 					}
 				} else if b.Seq > 0 || !b.Balances.IsZero() || b.Slots > 0 {
-					run.Violation("non-empty-account-deleted:"+kindClass(kind, rel), label, wit(a, nil))
+					// a creation transaction whose new contract lands on this (code-less, possibly funded) address and whose
+					// init code self-destructs: the account did self-destruct - as the contract it was for the length of the call
+					createdHere := pl.Tx != nil && pl.Tx.To() == nil && crypto.CreateAddress(pl.Sender.Addr, pl.Tx.Nonce()) == a
+					if createdHere && pl.Note == "selfdestruct-toward" && b.Seq == 0 && b.Slots == 0 {
+						run.Count("funded_addresses_taken_by_a_constructor_that_self_destructs", 1)
+					} else {
+						run.Violation("non-empty-account-deleted:"+kindClass(kind, rel), label, wit(a, nil))
+					}
 				}
 				// (5) complete removal: no balance of any denom, no code hash, no storage
 				if !af.Balances.IsZero() || af.HasCode || af.Slots > 0 {
